@@ -177,7 +177,7 @@ func predContract(c Case) (r Result) {
 var c17Sites = []string{
 	"", " ", "a.", ".a", "a..b", "a[", "a[0", "a[0:", "a[?", "a[?b", "a[?b]c", "a[*", "(a", "a)", "{a", "{a:", "{a:b", "{a:b,", "{a b}", "{1:a}",
 	"a,b", "[a,", "[a,]", "[,a]", "f(", "f(a", "f(a,", "f(a,)", "f(a b)", "f(,a)", "\"a\"(b)", "a(b)(c)", "@(a)", "`1`(a)", "(a)(b)", "[a](b)",
-	"'abc", "\"abc", "`abc", "`abc`", "\"\\q\"", "a = b", "a == ", "== a", "a ||", "|| a", "a |", "| a", "a &&", "!", "a !", "a ! b", "-", "a[-]",
+	"'abc", "\"abc", "`abc", "`abc`", "\"\\q\"", "\"\\u12\"", "\"\\u\"", "foo.\"ab\\u1\"", "\"\\ud800\"", "`\"\\u12\"`", "`\"\\`", "'\\", "\"\\", "a = b", "a == ", "== a", "a ||", "|| a", "a |", "| a", "a &&", "!", "a !", "a ! b", "-", "a[-]",
 	"a[9223372036854775808]", "a[1:9223372036854775808]", "a[:::]", "a[1 2]", "a[1:2 3]", "a[0:1:2:3]", "*.", "*.[", "a.*.", "a[*]b", "a[]b", "a b",
 	"a.1", "a.@", "a.&b", "&", "a[&b]", "#", "a#", "a.#", "é", "a.é", "\u0080", "a\u0080", "\xff", "a\xff", "a\x00b", "[?]", "[?a", "{}", "[]]", "a]", "a}",
 	"a:b", ":", "a,", "`", "'", "\"", "\\", "a\\", "a.b.", "a.b.[", "a.b.{", "a.{a:b}.", "f(&)", "f(&&)", "a | | b", "a || || b", "!!", "a[*].", "a[*].[",
@@ -228,9 +228,46 @@ func genBytes(t *rapid.T) string {
 var hostileLexemes = []string{"a", "b", "\"q\"", "0", "-1", "9223372036854775807", "-9223372036854775808", "9223372036854775808", "*", ".", "[", "]", "[]", "[?", "(", ")", "{", "}", ",", ":",
 	"==", "!=", "<", "<=", ">", ">=", "||", "&&", "|", "!", "&", "@", "`1`", "`[1,2]`", "'r'", "`", "'", "\"", "\\", "-", "=", "#", "\u0080", "é", "\x00", "\xff", "\xc3", "abs", "sort_by", "merge", "contains", "f", "::", "[::", "[-", "`{`", "`\"`", "'\\''"}
 
+var escapePieces = []string{`\u`, `\u1`, `\u12`, `\u123`, `\u1234`, `\ud800`, `\udc00\ud800`, `\x`, `\"`, `\\`, `\`, `\'`, "\\`", `\/`, `\n`, "a", "é", " ", "1", "{", "[", ":", ",", "\t", "\x00", "\x7f", "null", "tru"}
+
+// genDelimited: a quoted identifier, raw string or literal whose body is built from
+// valid and broken escape pieces, placed at the start, middle or end of an expression.
+func genDelimited(t *rapid.T) string {
+	d := []string{`"`, "'", "`"}[rapid.IntRange(0, 2).Draw(t, "delim")]
+	var sb strings.Builder
+	for i, n := 0, rapid.IntRange(0, 5).Draw(t, "pieces"); i < n; i++ {
+		sb.WriteString(escapePieces[rapid.IntRange(0, len(escapePieces)-1).Draw(t, "piece")])
+	}
+	body := sb.String()
+	closeIt := rapid.IntRange(0, 5).Draw(t, "close") > 0
+	tok := d + body
+	if closeIt {
+		tok += d
+	}
+	switch rapid.IntRange(0, 5).Draw(t, "place") {
+	case 0:
+		return tok
+	case 1:
+		return "foo." + tok
+	case 2:
+		return tok + ".foo"
+	case 3:
+		return tok + " "
+	case 4:
+		return "[" + tok + ", " + tok + "]"
+	default:
+		return "a || " + tok + " | b"
+	}
+}
+
 func TestC17Random(t *testing.T) {
 	rapid.Check(t, func(t *rapid.T) {
 		var e string
+		if rapid.IntRange(0, 4).Draw(t, "delimited") == 0 {
+			e = genDelimited(t)
+			run(t, withExpr(Case{Property: "C17", Kind: "contract"}, e))
+			return
+		}
 		switch rapid.IntRange(0, 3).Draw(t, "kind") {
 		case 0:
 			lex := genSentence(t, 4+rapid.IntRange(0, 16).Draw(t, "budget"))
